@@ -27,4 +27,17 @@ PROPS = {
                         "it is covered only by the bounded native round trip in replay/c06.py",
                         "annotations=None and memoryview values with itemsize > 1 are outside the encoder contract's precondition"],
     },
+    "C09": {
+        "modules": ["specs.socket_model", "specs.opaque", "contracts.socketutil", "contracts.server_instances"],
+        "contracts": ["Pyro5.server.Daemon._getInstance"],
+        "harness": "replay/c09.py",
+        "explanation": "_getInstance verified against the tables `class -> instance` of the daemon (single) and of the connection (session): "
+                       "existing non-None entry reused, otherwise exactly one creation stored and returned, other keys and the other table "
+                       "untouched, percall stores nothing, failing creations store nothing, creator calls == creations; every access to the "
+                       "daemon table and every creation in single mode happens while holding create_single_instance_lock (monitor obligation), "
+                       "which gives one instance per daemon for every interleaving",
+        "assumptions": ["instances are opaque objects (truthiness/equality uninterpreted)", "threading.Lock provides mutual exclusion; "
+                        "the step from `all accesses and the creation are inside one critical section` to `one instance for every interleaving` is the standard monitor argument (DESIGN 2.5), not machine checked",
+                        "a connection's session table is only touched by the thread serving that connection"],
+    },
 }
